@@ -215,6 +215,21 @@ def fftshift [Mul K] [OfNat K 1] (sh : List Nat) (axes : List Nat) (inverse : Bo
 def matrixProduct [OfNat K 0] (pre n post : Nat) (m : List K) : Coo K :=
   onAxis pre post (ofRows n n fun i => (List.range n).map fun j => (j, m.getD (i * n + j) 0))
 
+/-- MatrixProductOperator on an arbitrary (also non-contiguous, also unsorted) tuple of sub-domains `spaces`:
+    `y[idx] = Σ_t m[idx|spaces, t] · x[idx with the spaces-part replaced by t]`; `m` row-major over
+    `(Π sizes[spaces]) × (Π sizes[spaces])` -/
+def matrixProductSp [OfNat K 0] (sizes spaces : List Nat) (m : List K) : Coo K :=
+  let asizes := spaces.map fun s => sizes.getD s 1
+  let nact := prodL asizes
+  ofRows (prodL sizes) (prodL sizes) fun r =>
+    let idx := unravel sizes r
+    let arow := ravel asizes (spaces.map fun s => idx.getD s 0)
+    (List.range nact).map fun t =>
+      let aidx := unravel asizes t
+      let cidx := (List.range sizes.length).map fun k =>
+        if spaces.contains k then aidx.getD (spaces.idxOf k) 0 else idx.getD k 0
+      (ravel sizes cidx, m.getD (arow * nact + t) 0)
+
 /-! real-linear operators on real-doubled coordinates `(re_0, im_0, re_1, im_1, …)` -/
 
 /-- ConjugationOperator -/
